@@ -65,7 +65,10 @@ ListReps == {"any", "typed", "bytes"}
 MapReps == {"string_any", "any_any", "int64_any", "typed"}
 \* cbor.Tag, big.Int (CBOR bignum), time.Time (CBOR tag 0/1, YAML timestamp), a struct, a
 \* pointer to a struct, a typed nil pointer, a typed nil *regexp.Regexp, a func, a chan
-JunkClasses == {"tag", "bigint", "time", "struct", "ptr", "nilptr", "nilre", "func", "chan"}
+\* nil_wide / nil_sub: a typed nil pointer to a CATALOGUE struct (*catalog.Wide, *catalog.Sub) - for an
+\* object mapped to that pointer type (layouts wide_p / sub_p) it has exactly the schema's own Go type and
+\* must be rejected as nil; for the by-value layouts (wide / sub) it is a value of the wrong type
+JunkClasses == {"tag", "bigint", "time", "struct", "ptr", "nilptr", "nilre", "func", "chan", "nil_wide", "nil_sub"}
 \* what a CBOR / JSON / YAML decoder can hand over
 DecodableJunk == {"tag", "bigint", "time"}
 
@@ -187,7 +190,7 @@ KindOf(x) ==
       [] x.k = "re" -> "ptr"
       [] x.k = "struct" -> "struct"
       [] x.k = "junk" -> (CASE x.v \in {"tag", "bigint", "time", "struct"} -> "struct"
-                            [] x.v \in {"ptr", "nilptr", "nilre"} -> "ptr"
+                            [] x.v \in {"ptr", "nilptr", "nilre", "nil_wide", "nil_sub"} -> "ptr"
                             [] x.v = "func" -> "func"
                             [] x.v = "chan" -> "chan")
 
